@@ -7,11 +7,11 @@ import re
 # assert() in btcdeb code, exception escape) of the functions under contract - not the whole-program, all-argv statement
 def pick(mod, pat):
     return [q for q in mod.QUERIES if q.tier == 'quick' and re.match(pat, q.name)]
-QUERIES = (pick(C01, r'(step_push|step_unexecuted|step_3dup_6f|step_tuck_7d|step_tuck_depth1|step_2rot_71|step_pickroll_7a_n3|step_within_a5|step_hash_a9|leaf_getscriptop|leaf_getscriptop_len|leaf_hasvalidops|leaf_casttobool|leaf_checkminimalpush)$')
+QUERIES = (pick(C01, r'(step_push|step_unexecuted|step_3dup_6f|step_tuck_7d|step_tuck_depth1|step_2rot_71|step_pickroll_7a_n3|step_within_a5|step_hash_a9|leaf_getscriptop|leaf_getscriptop_len|leaf_hasvalidops|leaf_hasvalidops_loop_step|leaf_casttobool|leaf_checkminimalpush)$')
            + pick(C17, r'(ext_substr|ext_left|ext_right|ext_cat|ext_div_shape|ext_mod_shape|ext_mul_shape|ext_lshift|ext_rshift|ext_2div)$')
            + pick(C02, r'(sig_checksig_pre|sig_checksig_tapscript|sig_multisig_1of0|sig_multisig_counts)$')
-           + pick(C05, r'tap_') + pick(C07, r'enc_data') + pick(C09, r'(svf_table|svf_parse1_12|svf_reject_15_k1|svf_long_128|svf_long_150)$') + pick(C13, r'cs_') + pick(C03, r'parse_input')
-           + [L.REWIND_ROUNDTRIP, L.REWIND_REFUSED, L.END_OF_SCRIPT, L.CTOR, L.CONTINUE, L.INSTANCE_STEP, L.EVAL, L.COMMITMENT])
+           + pick(C05, r'tap_') + pick(C07, r'(enc_data|tokenise_n7)') + pick(C09, r'(svf_table|svf_parse1_12|svf_reject_15_k1|svf_long_128|svf_long_150|svf_loop_step)$') + pick(C13, r'cs_') + pick(C03, r'(parse_input|cfg_taproot)$')
+           + [L.REWIND_ROUNDTRIP, L.REWIND_REFUSED, L.END_OF_SCRIPT, L.CTOR, L.CONTINUE, L.INSTANCE_STEP, L.EVAL, L.COMMITMENT, L.SETUP])
 _seen = set(); QUERIES = [q for q in QUERIES if not (q.name in _seen or _seen.add(q.name))]
 META = {'level': 'proof', 'trusted_base': TRUSTED,
  'assumptions': ASSUME_COMMON + [
